@@ -200,6 +200,8 @@ def c_op(o) -> str:
         return f"(OClone {common.cbool(o.get('deep', False))} {common.cbool(o.get('allow', False))})"
     if k == "roundtrip":
         return "ORoundTrip"
+    if k == "set_rank":
+        return f"(OSetRank {c_val(o['v'])} {copt(o['r'], z)})"
     raise AssertionError(k)
 
 
@@ -580,6 +582,14 @@ class World:
                 self.model.remove_device_configuration(o["name"], cascade=o["cascade"])
             elif k == "rename":
                 self.vals[o["v"][0]].name = o["name"]
+            elif k == "set_rank":
+                val = self.vals[o["v"][0]]
+                if o["r"] is None:
+                    val.shape = None
+                else:
+                    val.shape = self.ir.Shape([2] * o["r"])
+                    if val.type is None:
+                        val.type = self.ir.TensorType(self.ir.DataType.FLOAT)
             elif k == "replace_input":
                 self.node_by_id(o["n"]).replace_input_with(o["i"], None if o["v"] is None else self.vals[o["v"][0]])
             elif k == "resize_out":
@@ -720,9 +730,10 @@ class Gen:
     """Generates the next op by looking at the world (so that most ops are meaningful); the produced history
     is a plain list of concrete ops that replays deterministically on a fresh World."""
 
-    def __init__(self, rng, strict: bool):
+    def __init__(self, rng, strict: bool, shapes: bool = False):
         self.rng = rng
         self.strict = strict
+        self.shapes = shapes          # also edit the shapes of (sharded) values
         self.fresh = 0
         self.pending: list[dict] = []
 
@@ -754,6 +765,8 @@ class Gen:
                  + ["clone"] * 5 + ["roundtrip"] * 8 + ["shadow"] * 3)
         if not self._registered(w):
             kinds += ["addcfg"] * 40
+        if self.shapes:
+            kinds += ["set_rank"] * 8
         reg_now = self._registered(w)
         if nodes and len(reg_now) >= 2 and r.random() < 0.06:
             nid, nd = r.choice(nodes)
@@ -876,6 +889,17 @@ class Gen:
             if k == "resize_in":
                 nid, nd = r.choice(nodes)
                 return {"op": "resize_in", "n": nid, "k": max(0, len(nd["in"]) + r.choice([-2, -1, -1, 0, 1, 2]))}
+            if k == "set_rank":
+                fin = {id(x) for x in w.function().inputs}      # FunctionProto does not carry their shapes
+                sharded = [sp[0] for _, nd in nodes for dc in nd["dc"] for sp in dc[2]]
+                live = [w.vrec(x) for x in w.live_objs() if id(x) not in fin]
+                cand = [x for x in sharded if id(w.vals[x[0]]) not in fin] if r.random() < 0.7 else live
+                if not cand:
+                    continue
+                v = r.choice(cand)
+                rk = r.choice([None, 0, 1, 2, 3, 4]) if v[1] is None or r.random() < 0.4 else \
+                    max(0, v[1] + r.choice([-1, 1, 1]))
+                return {"op": "set_rank", "v": v, "r": rk}
             if k == "remove_node":
                 cand = [nid for nid, _ in nodes if not w.has_bodies(w.node_by_id(nid))]
                 if not cand:
@@ -926,7 +950,7 @@ def _is_in(v, objs) -> bool:
     return any(v is x for x in objs)
 
 
-def oracle_state(w: World, strict: bool) -> list[str]:
+def oracle_state(w: World, strict: bool, axes: bool = True) -> list[str]:
     """The property on the current implementation state."""
     from onnx_ir import _multi_device as md
     from onnx_ir import serde
@@ -947,11 +971,17 @@ def oracle_state(w: World, strict: bool) -> list[str]:
                 rank = len(sp.value.shape) if sp.value.shape is not None else None
                 seen = set()
                 for sd in sp.sharded_dims:
-                    if rank is not None and not -rank <= sd.axis < rank:
+                    if not axes:
+                        # after shape edits only "recorded axes pairwise distinct as written" is claimed (DevInvW)
+                        if sd.axis in seen:
+                            bad.append(f"{node.name}: axis {sd.axis} recorded twice")
+                        seen.add(sd.axis)
+                    elif rank is not None and not -rank <= sd.axis < rank:
                         bad.append(f"{node.name}: axis {sd.axis} out of range for rank {rank}")
                     elif _norm(rank, sd.axis) in seen:
                         bad.append(f"{node.name}: axis {sd.axis} repeated")
-                    seen.add(_norm(rank, sd.axis))
+                    else:
+                        seen.add(_norm(rank, sd.axis))
                     if any(s.num_shards < 1 for s in sd.simple_shardings):
                         bad.append(f"{node.name}: num_shards < 1")
                 if strict and dc.configuration is not None and any(
@@ -974,6 +1004,8 @@ def oracle_state(w: World, strict: bool) -> list[str]:
     msgs = [classify(m) for m in md._check_device_configurations(w.model)]
     for kind, nid, arg in msgs:
         if kind == 5 and empty_names:
+            continue
+        if kind in (7, 8) and not axes:
             continue
         if kind in (6, 7, 8, 9, 99) or strict:
             bad.append(f"_check_device_configurations reports kind {kind} on node n{nid} (arg {arg})")
@@ -1097,6 +1129,7 @@ def run_history(init: dict, ops, strict: bool, gen: Gen | None = None, nops: int
     st0 = w.init_state()
     steps, failures = [], []
     last_proto = None
+    axes = True
     canon_before = w.observe("ok")
     bad0 = oracle_state(w, strict)
     if bad0:
@@ -1130,7 +1163,9 @@ def run_history(init: dict, ops, strict: bool, gen: Gen | None = None, nops: int
         cb = {k: v for k, v in canon_before.items() if k not in skip}
         ca = {k: v for k, v in ob.items() if k not in skip}
         cb["names"], ca["names"] = canon_before.get("all_names", canon_before["names"]), ob["names"]
-        bad = oracle_step(w, o, res, before, cb, ca, strict, invalid) + oracle_state(w, strict)
+        if o["op"] == "set_rank":
+            axes = False      # from here on only DevInvW is claimed about the recorded axes
+        bad = oracle_step(w, o, res, before, cb, ca, strict, invalid) + oracle_state(w, strict, axes)
         if bad:
             failures.append((i, bad))
         ob["why"] = invalid
@@ -1172,7 +1207,7 @@ def first_diff_file(h: dict) -> str:
 def correspondence(ck, hs: list[dict], tag: str) -> list[int]:
     """Indices of histories whose observations disagree with the model (compared inside Coq)."""
     import concurrent.futures as cf
-    chunk = 40
+    chunk = 40 if len(hs) > 400 else max(20, -(-len(hs) // 4))     # quick: exactly one wave of four files
     parts = [(f"{tag}_{i // chunk}", hs[i:i + chunk], i) for i in range(0, len(hs), chunk)]
     out = []
     with cf.ThreadPoolExecutor(max_workers=4) as ex:
@@ -1359,7 +1394,7 @@ def run(ck) -> None:
     ck.prove()
     probes(ck)
 
-    n_hist = 160 if not ck.thorough else 2400
+    n_hist = 112 if not ck.thorough else 2400
     n_ops = 28 if not ck.thorough else 40
     hs: list[dict] = []
     for c in load_corpus():
@@ -1367,7 +1402,7 @@ def run(ck) -> None:
     for i in range(n_hist):
         strict = (i % 4 != 3)
         init = gen_init(ck.rng)
-        hs.append(run_history(init, None, strict, Gen(ck.rng, strict), n_ops))
+        hs.append(run_history(init, None, strict, Gen(ck.rng, strict, shapes=(i % 4 == 2)), n_ops))
     for h in hs:
         ck.count(len(h["steps"]))
         _cover(ck, h)
@@ -1422,7 +1457,7 @@ def search(ck, reported: set) -> None:
     for i in range(budget):
         strict = (i % 5 != 4)
         init = gen_init(ck.rng)
-        h = run_history(init, None, strict, Gen(ck.rng, strict), 40)
+        h = run_history(init, None, strict, Gen(ck.rng, strict, shapes=(i % 5 == 3)), 40)
         ck.count(len(h["steps"]))
         if h["failures"] and not any(b.startswith("harness:") for _, bb in h["failures"] for b in bb):
             report_failure(ck, h, reported, "oracle-after-broken-obligation")
